@@ -14,7 +14,7 @@ TB_COMMON = [KERNEL, 'axioms: propext, Classical.choice, Quot.sound only (audite
 # theorem registry: property -> [(module, [theorem names])]
 THEOREMS = {
     'C11': [('ChessVerif.Props.C11', ['Chess.Props.C11_slider', 'Chess.Props.C11_leapers', 'Chess.Props.C11_lines', 'Chess.Props.C11_pawn'])],
-    'C01': [('ChessVerif.Props.C01', ['Chess.Props.C01_no_duplicates', 'Chess.Props.C01_move_shape', 'Chess.Props.C01_king_moves_exact', 'Chess.Props.C01_castling_exact', 'Chess.Props.C01_castling_emitted',
+    'C01': [('ChessVerif.Props.C01', ['Chess.Props.C01_movegen_exact', 'Chess.Props.C01_exact', 'Chess.Props.C01_exact_noep', 'Chess.Props.C01_unpinned_legal', 'Chess.Props.C01_no_duplicates', 'Chess.Props.C01_move_shape', 'Chess.Props.C01_king_moves_exact', 'Chess.Props.C01_castling_exact', 'Chess.Props.C01_castling_emitted',
                                      'Chess.Props.C01_forbidden_squares', 'Chess.Props.C01_forbidden_nocheck', 'Chess.Props.C01_in_check_test',
                                      'Chess.Props.C01_leaper_geometry_partial', 'Chess.Props.C01_slider_geometry_partial', 'Chess.Props.C01_castling_paths_partial',
                                      'Chess.Props.C01_king_moves_partial', 'Chess.Props.C01_pins_partial'])],
@@ -26,7 +26,7 @@ THEOREMS = {
     'C04': [('ChessVerif.Props.C04', ['Chess.Props.C04_key_inv', 'Chess.Props.C04_scratch_is_init', 'Chess.Props.C04_same_pos_same_key', 'Chess.Props.C04_pawn_key'])],
     'C05': [('ChessVerif.Props.C05', ['Chess.Props.C05_bestmove', 'Chess.Props.C05_bestmove_generated', 'Chess.Props.C05_pv_legal'])],
     'C06': [('ChessVerif.Props.C06', ['Chess.Props.C06_one_bestmove', 'Chess.Props.C06_stop_not_lost', 'Chess.Props.C06_isready', 'Chess.Props.C06_race_free'])],
-    'C07': [('ChessVerif.Props.C07', ['Chess.Props.C07_repetition_keys', 'Chess.Props.C07_repetition', 'Chess.Props.C07_rule50', 'Chess.Props.C07_draw', 'Chess.Props.C07_mate_stalemate',
+    'C07': [('ChessVerif.Props.C07', ['Chess.Props.C07_repetition_keys', 'Chess.Props.C07_repetition', 'Chess.Props.C07_rule50', 'Chess.Props.C07_draw', 'Chess.Props.C07_mate_stalemate', 'Chess.Props.C07_mate_stalemate_exact',
                                      'Chess.Props.C07_check', 'Chess.Props.C07_attacked', 'Chess.Props.C07_check_after_move', 'Chess.Props.C07_material', 'Chess.Props.C07_geometry']),
             ('ChessVerif.Lemmas.OKDec', ['Chess.check_eq_of_hypotheses', 'Chess.material_eq_of_hypotheses'])],
     'C08': [('ChessVerif.Props.C08', ['Chess.Props.C08_distance', 'Chess.Props.C08_printed', 'Chess.Props.C08_ranges_disjoint'])],
@@ -259,7 +259,35 @@ def check_C03(ctx):
                        'theorems in Props/C03.lean + three-way differential on every observable after every undo (the spec side restores a saved '
                        'snapshot, so agreement means the implementation restored everything), nested excursions up to depth 4 (quick); plus the static '
                        'evaluation (which reads piece lists, bitboards and cache keys) before and after every make/unmake excursion of the lab positions',
-                       extra=lambda c: (perft_extra(2, 3)(c), eval_after_undo_extra(c)), assumptions=['Spec.wf positions'])
+                       extra=lambda c: (perft_extra(2, 3)(c), eval_after_undo_extra(c), search_restores_extra(c)), assumptions=['Spec.wf positions'])
+
+
+def search_restores_extra(ctx):
+    """"a search never alters the position it was asked about": searches stopped at many different node visits (inside null-move
+    subtrees, inside quiescence, at the root) must end with every made move taken back (trace acceptor) and with the position they
+    were given (the harness compares the position before and after)."""
+    import random
+    rng = random.Random(ctx.seed * 77 + 5)
+    fens = search_positions(ctx, 6 if ctx.tier == 'quick' else 60, rng)
+    fens += ['r3k2r/pppq1ppp/2npbn2/2b1p3/2B1P3/2NPBN2/PPPQ1PPP/R3K2R w KQkq - 0 1', 'r1bq1rk1/pp2bppp/2n1pn2/3p4/2PP4/2N1PN2/PP2BPPP/R1BQ1RK1 w - - 0 1']
+    texts = []
+    for fen in fens:
+        ks = sorted({rng.randrange(2, 4000) for _ in range(10 if ctx.tier == 'quick' else 40)} | {3, 17, 40, 90, 150, 333})
+        texts.append(f'pos {fen}\n' + ''.join(f'go depth 7 stopvisit {k}\n' for k in ks) + 'go depth 7 stopvisit 60 searchmoves ' +
+                     'e1g1\n' * (1 if fen.startswith('r3k2r/pppq') else 0))
+    runs = go_run(ctx, [t if t.endswith('e1g1\n') else t.rsplit('go depth 7 stopvisit 60 searchmoves', 1)[0] for t in texts])
+    ctx.count('stopped_searches', len(runs))
+
+    def fail(r):
+        e = r['end']
+        if e.get('restored') not in (None, '1'):
+            return 'the search did not restore the position it was given'
+        a = r['accline']
+        if a and not a.startswith('ACC ok') and any(w in a for w in ('still made', 'not unwound', 'restored', 'bad state', 'nothing to undo', 'not the move')):
+            return 'the stopped search left a move made (trace: ' + a[:120] + ')'
+        return None
+    judge(ctx, runs, 'search restores its position', fail, acc_required=False)
+    ctx.cov['rule'] += f'; plus {len(runs)} searches stopped at scattered node visits: every made move (incl. null moves) is taken back and the position is the one given'
 
 
 def real_tables_extra(ctx):
@@ -1325,8 +1353,16 @@ def check_C05(ctx):
     # searchmoves subsets
     for fen in search_positions(ctx, q[0] // 4, rng):
         texts.append(f'pos {fen}\nsmgo {rng.randrange(1 << 30)} 2\nsmgo {rng.randrange(1 << 30)} 3\n')
+    # restricted searches deep enough for internal iterative deepening at the root (depth > 5), right after a deeper unrestricted
+    # search of the same position and on poisoned tables: whatever the table holds under the root key, the answer is a root move
+    deep = ['rnbqkbnr/pppppppp/8/8/8/8/PPPPPPPP/RNBQKBNR w KQkq - 0 1', 'r1bqkbnr/pppp1ppp/2n5/4p3/4P3/5N2/PPPP1PPP/RNBQKB1R b KQkq - 2 2',
+            '8/2p5/3p4/KP5r/1R3p1k/8/4P1P1/8 w - - 0 1', '6k1/5ppp/8/8/8/8/5PPP/R5K1 w - - 0 1', '8/8/4k3/p1p1p1p1/P1P1P1P1/8/4K3/8 w - - 0 1']
+    for fen in (deep[:3] if ctx.tier == 'quick' else deep):
+        texts.append(f'pos {fen}\ngo depth 7\nsmgo {rng.randrange(1 << 30)} 6\nsmgo {rng.randrange(1 << 30)} 7\n')
+        for _ in range(2 if ctx.tier == 'quick' else 8):
+            texts.append(f'pos {fen}\nsmgo {rng.randrange(1 << 30)} {rng.choice([6, 7])} poison {rng.randrange(1 << 30)} 60\n')
     runs = go_run(ctx, texts)
-    ctx.cov['rule'] = (f'{len(texts)} sessions on corpus + lab positions: go with depth 1..{q[2]}, stop delivered after exactly k node visits (k from {q[1][:6]}...), at go-entry / after-init / '
+    ctx.cov['rule'] = (f'{len(texts)} sessions on corpus + lab positions: go with depth 1..{q[2]} (and searchmoves-restricted depth 6-7 searches after a deeper unrestricted one and on poisoned tables), stop delivered after exactly k node visits (k from {q[1][:6]}...), at go-entry / after-init / '
                        'iteration-end / before-bestmove, adversarially poisoned transposition tables (root key and keys 1-2 plies below; illegal/other-position moves, all flags, '
                        'depths 0..60, scores across the mate range, old and current epochs), tiny/negative clocks, nodes 1, searchmoves subsets; every run\'s hook trace is fed to the '
                        'Lean acceptor and its output to the rules spec; distinct = distinct (position, go line)')
@@ -1650,7 +1686,13 @@ def check_C09(ctx):
         ops += [f'go depth {rng.randrange(3, 5)}', f'smgo {rng.randrange(1 << 30)} {rng.randrange(2, 4)}']
         texts.append('\n'.join(ops) + '\n')
     runs = go_run(ctx, texts, timeout=900)
-    ctx.cov['rule'] = (f'go depth d for d in {depths} on positions where deep iterations are instant; depth combined with movetime/clock/nodes; searchmoves naming castling and (under-)promotion moves; random searchmoves subsets (also right after a deeper '
+    # roots without a legal move (checkmated, stalemated): the iteration loop has nothing to search and must still end by itself
+    nomove = ['R5k1/5ppp/8/8/8/8/8/6K1 b - - 0 1', 'rnb1kbnr/pppp1ppp/8/4p3/6Pq/5P2/PPPPP2P/RNBQKBNR w KQkq - 1 3', '7k/5Q2/6K1/8/8/8/8/8 b - - 0 1',
+              '8/8/8/8/8/5k2/5p2/5K2 w - - 0 1']
+    nomove += [mirror_fen(f) for f in nomove]
+    runs += go_run(ctx, [f'pos {fen}\n' + ''.join(f'go depth {d}\n' for d in (1, 2, 4, 41, 1000)) + 'go depth 3 movetime 2000\n' for fen in nomove], timeout=150)
+    ctx.count('no_legal_move_roots', len(nomove))
+    ctx.cov['rule'] = (f'go depth d for d in {depths} on positions where deep iterations are instant; depth combined with movetime/clock/nodes; go depth d on checkmated and stalemated roots (nothing to search: the loop must still end); searchmoves naming castling and (under-)promotion moves; random searchmoves subsets (also right after a deeper '
                        'unrestricted search and with poisoned tables); time/clock/node limits must return on their own within the timeout; output checked by the spec (consecutive depths, <= d, '
                        'bestmove in subset) and trace by the acceptor')
     judge(ctx, runs, 'search limits', c09_fail)
@@ -1708,13 +1750,18 @@ def check_C10(ctx):
     for fm in (399, 400, 460, 1000, 4000):
         texts.append(f'pos r4rk1/pp3ppp/2n1b3/3p4/3P4/2PB1N2/P4PPP/R4RK1 w - - 3 {fm}\ngo wtime 3000 btime 3000 winc 100 binc 100\ngo wtime 500 btime 500 movestogo 2\n'
                      f'pos r4rk1/pp3ppp/2n1b3/3p4/3P4/2PB1N2/P4PPP/R4RK1 b - - 3 {fm}\ngo wtime 400 btime 400\n')
+    # GUI-supplied horizons of unusual magnitude: movestogo at, just above and far above the engine's own default horizon, with and
+    # without increments, early and late in the game
+    for mtg in (49, 50, 51, 52, 64, 80, 120, 500, 5000):
+        texts.append(f'pos rnbqkbnr/pppppppp/8/8/8/8/PPPPPPPP/RNBQKBNR w KQkq - 0 1\ngo wtime 900 btime 900 movestogo {mtg}\npos r4rk1/pp3ppp/2n1b3/3p4/3P4/2PB1N2/P4PPP/R4RK1 b - - 3 61\n'
+                     f'go wtime 700 btime 700 winc 20 binc 20 movestogo {mtg}\n')
     # long forcing lines and ordinary sessions with ucinewgame cycles
     for fen in search_positions(ctx, 16 if ctx.tier == 'quick' else 200, rng):
         texts.append(f'pos {fen}\ngo depth {rng.randrange(2, 5)}\nnewgame\ngo depth 2\nplaybest\ngo depth 3 stopvisit {rng.randrange(1, 400)}\nplaybest\ngo nodes 3000\n')
     texts = [t if t.startswith('ztab') else 'ztab 5\n' + t for t in texts]
     runs = go_run(ctx, texts, timeout=1500)
     ctx.cov['rule'] = ('boundary sessions of every fixed-size buffer under ASan+UBSan: a 924-ply game then go (key history), depth limits 39..2^31-1 (per-iteration arrays), the 218-move position through '
-                       'generate/san/go (move lists, san buffer, searchmoves), clock-limited searches at full-move numbers 399..4000 (anything indexed by game ply), one session of the engine binary under valgrind memcheck (uninitialised reads), promotions to a 10th knight/bishop/rook/queen (piece lists), ucinewgame cycles, stops; plus maxply+1 < StackInfo capacity '
+                       'generate/san/go (move lists, san buffer, searchmoves), clock-limited searches at full-move numbers 399..4000 (anything indexed by game ply) and with movestogo 49..5000 (anything indexed by the horizon), one session of the engine binary under valgrind memcheck (uninitialised reads), promotions to a 10th knight/bishop/rook/queen (piece lists), ucinewgame cycles, stops; plus maxply+1 < StackInfo capacity '
                        'from the hooks; the crash-free state lines are also compared with the model')
     judge(ctx, runs, 'memory safety on boundary sessions', c10_fail)
     # state/moves lines of these sessions against the model (the piece-list boundary shows up as sync/gen differences)
